@@ -1,9 +1,10 @@
 #!/bin/sh
 # usage: tools/seed_run.sh <seed-id> <tier> <Cxx> [--job name]
 # Runs a check against the seeded change.  By default the patch is applied to a scratch worktree of /repo (so other
-# checks running on /repo are not disturbed); with SEED_INPLACE=1 it is applied to /repo itself and reverted afterwards.
+# checks running on /repo are not disturbed); SEED_DIR=/verif/neutral selects the behaviour-preserving changes; with SEED_INPLACE=1 it is applied to /repo itself and reverted afterwards.
 ID=$1; T=$2; shift 2
-P=/verif/seeded/$ID/patch.diff; [ -f /verif/seeded/$ID/patch_rebased.diff ] && P=/verif/seeded/$ID/patch_rebased.diff
+D=${SEED_DIR:-/verif/seeded}
+P=$D/$ID/patch.diff; [ -f $D/$ID/patch_rebased.diff ] && P=$D/$ID/patch_rebased.diff
 if [ -n "$SEED_INPLACE" ]; then R=/repo; else
   R=/tmp/seedrun_$ID; git -C /repo worktree remove --force $R 2>/dev/null; git -C /repo worktree add -q --detach $R HEAD || exit 3
 fi
